@@ -1,0 +1,28 @@
+//go:build verif && linux
+
+package tun
+
+import (
+	"os"
+
+	"golang.zx2c4.com/wireguard/conn"
+)
+
+// Export for the verification harness of property C16 (build tag verif only).  Add-only.
+
+// VerifNewWriteTun returns a NativeTun whose Write goes to f with the
+// virtio-net header path (GRO on write) enabled, as CreateTUN sets it up after
+// a successful TUNSETOFFLOAD: vnetHdr on, udpGSO as given, empty GRO tables that
+// persist across Write calls.  f is typically one end of a SOCK_DGRAM
+// socketpair standing in for /dev/net/tun; only Write may be called on the
+// result (no netlink socket, no event channels); close f yourself.
+func VerifNewWriteTun(f *os.File, udpGSO bool) *NativeTun {
+	return &NativeTun{
+		tunFile:     f,
+		vnetHdr:     true,
+		udpGSO:      udpGSO,
+		tcpGROTable: newTCPGROTable(),
+		udpGROTable: newUDPGROTable(),
+		toWrite:     make([]int, 0, conn.IdealBatchSize),
+	}
+}
